@@ -119,6 +119,12 @@ theorem inv_stepOp {x : Sim} (o : Op) (h : Inv x.st) : ∀ y ∈ stepOp x o, Inv
   | inject p cs aw =>
     simp only [stepOp] at hy
     exact injectAll_ind (fun z => Inv z.st) p cs aw (fun z s' hz hs' => inv_turns hz s' hs') (fun z hz => inv_doSend p cs aw hz) 50 h y hy
+  | clone w =>
+    simp only [stepOp, List.mem_singleton] at hy; subst hy
+    unfold cloneWaiter
+    split
+    · exact inv_pollWaiter _ (inv_congr (s := x.st) rfl rfl rfl h)
+    · exact inv_emit _ h
 
 theorem inv_runOps (ops : List Op) {x : Sim} (h : Inv x.st) : ∀ y ∈ runOps x ops, Inv y.st := by
   induction ops generalizing x with
